@@ -147,7 +147,8 @@ var ltlsDesc = &lmDesc{
 				if len(r.ClientHello.Extensions) > 0 {
 					tg = append(tg, "extensions")
 				}
-				if int(r.ClientHello.Length)+4 > int(r.Length) {
+				ch := r.ClientHello
+				if 39+int(ch.SessionIDLength)+2+int(ch.CipherSuitsLength)+1+int(ch.CompressionMethodsLength)+2+int(ch.ExtensionsLength) > int(r.Length) {
 					tg = append(tg, "clienthello-beyond-record")
 				}
 			} else if r.Length >= 16 {
@@ -313,6 +314,10 @@ func (ltls) Gen(rng *rand.Rand, tier string) []Case {
 		for _, f := range lnFCD[:6] {
 			add("", "ser:"+hx(m)+","+f+",")
 		}
+	}
+	for i := 0; i < 20*scale; i++ { // the first packet fails after some records were appended
+		first := append(residue(), lnRandBytes(rng, lnPick(rng, 1, 4, 9))...)
+		add("", "dec2:"+hx(first)+","+hx(randMsg()))
 	}
 	// (2) every truncation of a multi-record message containing a ClientHello
 	for i := 0; i < 3*scale; i++ {
